@@ -123,13 +123,19 @@ def preimage (taproot : Bool) (ht : Nat) (tx : Tx) (idx : Nat) (spent : List Out
   { taproot := taproot, ht := ht, ins := insCommitted ht tx idx, idx := idx,
     outs := outsCommitted ht tx idx, lock := tx.lock, spent := spent }
 
-/-- ideal signature: unforgeable pair (signer key, message) -/
+/-- ideal signature: unforgeable triple (signer key, the account output whose script context – p2wsh witness
+script with the tweaked keys / MuSig2 aggregate key with the expiry-leaf tweak – the signing key material was
+derived for, message) -/
 structure Sig where
   key : Key
+  forOut : Out
   msg : Preimage
 deriving DecidableEq, Repr
 
-def Sig.verify (pk : Key) (m : Preimage) (σ : Sig) : Bool := σ.key == pk && σ.msg == m
+/-- a signature helps to spend output `out` with message `m` iff it was made by `pk` for exactly that output's
+script context over exactly `m` -/
+def Sig.verify (pk : Key) (out : Out) (m : Preimage) (σ : Sig) : Bool :=
+  σ.key == pk && σ.forOut == out && σ.msg == m
 
 /-! ## Database and manager state -/
 
@@ -239,7 +245,7 @@ def signLoop (db : DB) (b : Batch) (f : Faults) :
         if a.version ≥ Pool.Gen.C05.versionTaprootEnabled then
           -- signInputMuSig2
           if !b.nonces.contains d.acct then (.err .nonce, c1) else
-          -- MuSig2CreateSession
+          -- MuSig2CreateSession, with the keys / expiry / secret of the STORED account
           let c2 : Ctr := { c1 with calls := c1.calls + 1 }
           if f.sf = some c1.calls then (.err .signer, c2) else
           -- TaprootMuSig2Sign: previousOutputs[idx] for every input
@@ -247,13 +253,13 @@ def signLoop (db : DB) (b : Batch) (f : Faults) :
           -- MuSig2Sign
           let c3 : Ctr := { c2 with calls := c2.calls + 1 }
           if f.sf = some c2.calls then (.err .signer, c3) else
-          let σ : Sig := ⟨a.key, preimage true htTaproot b.tx idx (b.prevOuts.take b.tx.ins.length)⟩
+          let σ : Sig := ⟨a.key, a.out, preimage true htTaproot b.tx idx (b.prevOuts.take b.tx.ins.length)⟩
           signLoop db b f rest c3 (σ :: sigs) (a.key :: nonces)
         else
           -- SignOutputRaw with HashType from the source, Output = the account's current output
           let c2 : Ctr := { c1 with calls := c1.calls + 1 }
           if f.sf = some c1.calls then (.err .signer, c2) else
-          let σ : Sig := ⟨a.key, preimage false htP2wsh b.tx idx [a.out]⟩
+          let σ : Sig := ⟨a.key, a.out, preimage false htP2wsh b.tx idx [a.out]⟩
           signLoop db b f rest c2 (σ :: sigs) nonces
 
 def signerSign (db : DB) (b : Batch) (f : Faults) : SignRes × Ctr :=
